@@ -422,6 +422,42 @@ def main():
             same = (o[0] == o2[0]) and (o[1] == o2[1] if o[0] == "err" else same_obs(canon(o[1]), canon(o2[1]), Fr(1, 1 << 40)))
             if not same and not (o[0] == "err" and o[1] in ("MixedArrayShapes",)):
                 fails.append({"sig": "%s:order:%s" % (prop, cname), "what": "%s gives %s for one input order and %s for another" % (cname, summarize(o), summarize(o2)), "replay": dict(replay, other_order=perm)})
+    if prop == "C04":
+        # floating-point stream (oracle only, not compared with the exact model): decimal, non-dyadic data, thresholds and
+        # control points, with cells lying exactly on control points -- where rounding can push an unclamped line past +-1
+        RAWKEYS = ("TrueThreshold", "FalseThreshold", "RawValues")
+        dist["float_stream"] = 0
+        for _ in range(max(200, n // 2)):
+            cname = rnd.choice([c for c in cc.FUZZY_OUT if c not in cc.FUZZY_IN])
+            g = gen_case(rnd, cname, prop)
+            if g is None:
+                continue
+            arrays, p = g
+            if not arrays or any(not numpy.issubdtype(a.dtype, numpy.floating) for a in arrays):
+                continue
+            scale = rnd.choice([0.1, 1.0 / 3.0, 0.7, 1e-3, 37.3, 1.1])
+            arrays = [numpy.ma.array(numpy.ma.getdata(a).astype(float) * scale, mask=numpy.ma.getmaskarray(a)) for a in arrays]
+            p = dict(p)
+            for k in RAWKEYS:
+                if k in p:
+                    p[k] = [float(x) * scale for x in p[k]] if isinstance(p[k], list) else float(p[k]) * scale
+            if "RawValues" in p and arrays[0].size:
+                flat = numpy.ma.getdata(arrays[0]).reshape(-1)
+                for j in range(min(len(p["RawValues"]), flat.size)):        # cells exactly on control points
+                    flat[j] = p["RawValues"][j]
+            for k in ("FuzzyValues",):
+                if k in p and rnd.random() < 0.7:
+                    p[k] = [rnd.choice([1, -1, 1.0, -1.0, 0.1, -0.7, 0.3]) for _ in p[k]]
+            o = run_impl(cname, arrays, p)
+            evaluations += 1
+            dist["float_stream"] += 1
+            if o[0] == "ok":
+                c = canon(o[1])
+                if c.get("kind") != "notarray":
+                    bad = [float(v) for v in c["cells"] if v is not None and not isinstance(v, str) and not (-1 <= v <= 1)]
+                    if bad or any(isinstance(v, str) for v in c["cells"]):
+                        fails.append({"sig": "C04:range:%s" % cname, "what": "%s returned values outside [-1, 1] (floating-point overshoot): %r" % (cname, bad[:5]),
+                                      "replay": describe(cname, arrays, p)})
     files = []
     CH = 150
     for i in range(0, len(cases), CH):
